@@ -28,18 +28,36 @@ pub fn digit_alphabet(w: u32) -> Vec<u64> {
     let m = mask(w);
     let h = w / 2;
     let s = seed();
-    let g1 = splitmix(s ^ 0x1234_5678_9abc_def0 ^ w as u64) & m;
+    // g1: top bit set and, for digits of at least 16 bits, low half above high half (a normalised
+    // divisor digit of "ordinary" shape); g2: unconstrained
+    let mut g1 = (splitmix(s ^ 0x1234_5678_9abc_def0 ^ w as u64) & m) | (1u64 << (w - 1));
+    if w >= 16 {
+        let hm = (1u64 << h) - 1;
+        let (mut hi, mut lo) = (g1 >> h, g1 & hm);
+        if lo <= hi {
+            if hi == hm {
+                hi -= 1;
+            }
+            // keep the generic low half if it can be made larger by setting its top bit, else hi + 1
+            lo = if (lo | (1u64 << (h - 1))) > hi { lo | (1u64 << (h - 1)) } else { hi + 1 };
+        }
+        g1 = (hi << h) | lo;
+    }
     let g2 = splitmix(s ^ 0x0fed_cba9_8765_4321 ^ ((w as u64) << 8)) & m;
+    // simplest first; one generic digit among the first eight (N = 3 grids) and both among the first
+    // fourteen (N = 2 grids), so that the products also contain "ordinary-looking" digits
     let raw = vec![
         0,
         1,
         m,
         1u64 << (w - 1),
+        g1,
         (1u64 << (w - 1)) - 1,
         2,
         m - 1,
         (1u64 << (w - 1)) + 1,
         3,
+        g2,
         (1u64 << h) - 1,
         1u64 << h,
         (1u64 << h) + 1,
@@ -47,8 +65,6 @@ pub fn digit_alphabet(w: u32) -> Vec<u64> {
         m - 2,
         m / 3,
         (m / 3) * 2,
-        g1,
-        g2,
     ];
     let mut seen = HashSet::new();
     raw.into_iter().filter(|v| seen.insert(*v)).collect()
@@ -247,7 +263,7 @@ pub fn structured(w: u32, n: usize, tier: Tier) -> Vec<Vec<u8>> {
             v
         }
         4 => {
-            let mut v = grid(w, 4, if tier == Tier::Thorough { 6 } else { 4 });
+            let mut v = grid(w, 4, if tier == Tier::Thorough { 6 } else { 5 });
             v.extend(masks(w, 4, false));
             v
         }
